@@ -3,7 +3,7 @@
 From TV Require Import Base.Prelude Base.Utf8 Base.Winnow Gen.Consts.
 From TV Require Import Model.Trivia Model.Strings Model.Datetime Model.Numbers Model.Tree Model.Parse Model.Document.
 From TV Require Import Model.Write Model.WriteFloat.
-From TV Require Import Proofs.NumbersRT_Lex Proofs.NumbersRT_Int Proofs.NumbersRT_Value.
+From TV Require Import Proofs.Eoi Proofs.NumbersRT_Lex Proofs.NumbersRT_Int Proofs.NumbersRT_Value.
 Require Import Lia ZifyBool ZifyN ZifyNat.
 
 (* ---- the guard of `float`: a decimal literal whose magnitude rounds to an infinity is refused,
@@ -70,7 +70,7 @@ Proof.
   intros Hs Hn Hdt Hl Hd Ho.
   pose proof (float_overflow _ _ _ _ _ _ Hl Hd Ho) as Hc.
   pose proof (date_time_bt0 (new_input s) Hdt) as Hb.
-  unfold parse_value_raw, parse_all, bind, value_. cbn [value_f].
+  unfold parse_value_raw. rewrite parse_all_eoi_unfold. unfold value_. cbn [value_f].
   unfold value_step, pmap, with_span.
   rewrite (value_body_number _ (new_input s) b tl); [|rewrite Hs; reflexivity | exact Hn].
   unfold number_arm, alt, pmap.
